@@ -32,6 +32,10 @@ PAYLOADS = [
     "'><svg/onload=zq{i}>", 'zq{i}{{0}}', 'zq{i}{{e.status}}', 'zq{i}{{url!r}}', 'zq{i}{{e.__class__.__mro__}}', 'zq{i}{{exception}}{{traceback}}',
     'zq{i}{{', 'zq{i}}}', 'zq{i}{{e.body', '<!--zq{i}', ']]>zq{i}<![CDATA[', 'zq{i}\\x3cb\\x3e', '<zq{i}', 'zq{i}>', '%3Czq{i}%3E', 'zq{i}&lt;b&gt;',
     '<ZQ{i} a="b">', 'javascript:zq{i}', ' <zq{i}>', 'é<zq{i}>日', '{{0.zq{i}}}', '{{zq{i}!x}}',
+    # what a JSON string cannot hold as it is: backslashes (also as the very last character), line breaks, tabs, other control characters
+    '..\\..\\zq{i}\\win.ini', 'zq{i}\\', 'zq{i}\nnext<b>', 'zq{i}\tcol', 'zq{i}\x08\x0c\x1f', '\\"zq{i}\\u0022',
+    # look-alikes of the markup characters (fullwidth, small forms) and invisible characters: harmless as they are, markup after a normalisation
+    '\uff1czq{i} onerror=alert(1)\uff1e', '\ufe64zq{i}\ufe65', '\uff02zq{i}\uff07\uff1e', '\uff1c\u200bscript\uff1ezq{i}\uff1c/script\uff1e', '\u202ezq{i}\u2066',
 ]
 FORMAT_RE = re.compile(r'\{[^{}]*\}|\{|\}')
 
@@ -226,6 +230,9 @@ def make_case(rng, i, kind, benign_of=None):
             txt = mid
         else:
             txt = rng.choice(PAYLOADS).format(i=i * 10 + k)
+            if where == 'path':
+                # which rule a path with control characters matches is the router's business (C01), not the page's
+                txt = ''.join(c if ord(c) >= 32 else '_' for c in txt)
         markers.append((mid, txt, where))
         return txt
 
